@@ -3444,3 +3444,16 @@ mod tests {
         }
     }
 }
+
+// ========================================================================
+// Verification hooks (read-only accessors to private items); compiled only
+// with --cfg pornin_crrl_verif.
+
+#[cfg(pornin_crrl_verif)]
+impl Point {
+    pub fn verif_recode_u128(n: u128) -> [i8; 26] { Self::recode_u128(n) }
+    pub fn verif_recode_scalar_NAF(n: &Scalar) -> [i8; 255] { Self::recode_scalar_NAF(n) }
+    pub fn verif_recode_u128_NAF(n: u128) -> [i8; 130] { Self::recode_u128_NAF(n) }
+    pub fn verif_split_mu(k: &Scalar) -> (u128, u32, u128, u32) { Self::split_mu(k) }
+    pub fn verif_lookup(win: &[GF255e; 64], k: i8) -> Self { Self::lookup(win, k) }
+}
